@@ -2166,3 +2166,40 @@ CASES += [
          new="""            let mid = trees.len() >> 1;
             let (l, r) = (&trees[..mid], &trees[mid..]);"""),
 ]
+
+CASES += [
+    # ------------------------------------------------------------------ MM (the double-and-add loop of mul_mod; part of LAW)
+    dict(name="mm-bit-test-inverted", file=FF, rule="LAW", props=["C13"], expect="mul_mod:double-and-add",
+         old="""        if b & 1 == 1 {""", new="""        if b & 1 == 0 {"""),
+    dict(name="mm-multiple-not-doubled", file=FF, rule="LAW", props=["C13"], expect="mul_mod:double-and-add",
+         old="""        a = (a + a) % P;""", new="""        a = (a + 1) % P;"""),
+    dict(name="mm-accumulator-adds-twice", file=FF, rule="LAW", props=["C13"], expect="mul_mod:double-and-add",
+         old="""            result = (result + a) % P;""", new="""            result = (result + a + a) % P;"""),
+    dict(name="mm-accumulator-seeded-with-a", file=FF, rule="LAW", props=["C13"], expect="mul_mod:double-and-add",
+         old="""    let mut result: u128 = 0;
+    let mut a = a % P;""", new="""    let mut a = a % P;
+    let mut result: u128 = a;"""),
+    dict(name="mm-returns-multiple", file=FF, rule="LAW", props=["C13"], expect="mul_mod:double-and-add",
+         old="""        b >>= 1;
+    }
+    result
+}""", new="""        b >>= 1;
+    }
+    let _ = result;
+    a
+}"""),
+    dict(name="mm-other-spellings-ok", file=FF, rule="LAW", props=["C13"], expect=None,
+         old="""    while b > 0 {
+        if b & 1 == 1 {
+            result = (result + a) % P;
+        }
+        a = (a + a) % P;
+        b >>= 1;
+    }""", new="""    while b != 0 {
+        if b % 2 != 0 {
+            result = (a + result) % P;
+        }
+        a = (2 * a) % P;
+        b /= 2;
+    }"""),
+]
